@@ -20,7 +20,8 @@ RULE = ("seeded systems with 1-5-atom residues (single, chains, branched, planar
         "position (1e-9), centred coordinates == factor * R * template for a proper rotation R (Kabsch fit with "
         "det +1, residual <= 1e-8 nm) with atoms matched by their own atom name; in the adversarial stratum the "
         "optimiser result seen by backmap is replaced by hostile angle triples (0, pi/2 multiples, 2pi-eps, huge, "
-        "random). non-trivial = run with >= 1 back-mapped multi-atom residue; distinct = hash(topology, options)")
+        "random). non-trivial = run with >= 1 back-mapped multi-atom residue; distinct = hash(topology, options)"
+        ' Later: residues with a virtual site stacked on one atom; two residue definitions under one name.')
 ASSUMPTIONS = ["handedness is implied by the proper-rotation fit (a mirror image of a rank-3 template has a large residual)",
                "templates are compared with their value at the start of back-mapping (in-place changes are visible)"]
 CASE_TIMEOUT = 240
